@@ -70,6 +70,8 @@ def c05_any_tonic(tonic: str, n: int) -> bool:
 def c05_diatonic(tonic: str, n: int) -> bool:
     semis = P["semis"]
     n = enum(n, 1, 4)
+    # the same scale with another octave count was built and read first: the notes do not depend on that
+    scales.Diatonic(tonic, semis, 1 if n > 1 else 2).ascending()
     s = scales.Diatonic(tonic, semis, n)
     pat = [1 if i in semis else 2 for i in range(1, 7)]
     pat.append(12 - sum(pat))
